@@ -28,12 +28,13 @@ Definition lookup_int (tab : list (str * option Z)) : int_oracle :=
 Definition lookup_flt (tab : list (str * fres)) : float_oracle :=
   fun x => match assoc x tab with Some r => r | None => FValErr end.
 
-Definition ODF_SKIP : list str := [OFFICE_ANNOTATION].
+Definition ODF_SKIP : list str := [OFFICE_ANNOTATION].                 (* ods, odp *)
+Definition ODT_SKIP : list str := [OFFICE_ANNOTATION; s "text:note"].  (* odt *)
 
 Definition corr_odt_tree (c : list (str * option Z) * xml * list (list (list str))) : bool :=
-  let '(it, t, r) := c in tables_eqb (odt_tables (lookup_int it) ODF_SKIP t) r.
+  let '(it, t, r) := c in tables_eqb (odt_tables (lookup_int it) ODT_SKIP t) r.
 Definition corr_odt (c : doc * xml * list (list (list str))) : bool :=
-  let '(d, t, r) := c in xml_eqb t (odt_r_body d) && tables_eqb (odt_tables (lookup_int []) ODF_SKIP t) r.
+  let '(d, t, r) := c in xml_eqb t (odt_r_body d) && tables_eqb (odt_tables (lookup_int []) ODT_SKIP t) r.
 
 (* ODP: one table element -> its grid *)
 Definition corr_odp_tree (c : list (str * option Z) * xml * list (list str)) : bool :=
